@@ -183,6 +183,36 @@ pub fn two_level() -> Vec<Shape> {
     v
 }
 
+/// Every two-level shape placed under a wrapper in which the printer's decision depends on something
+/// further away (what follows a lambda body, a conditional's else-branch, a left operand ...).
+pub fn wrapped_two_level() -> Vec<Shape> {
+    let mut v = Vec::new();
+    let e = || id("e");
+    let wrappers: Vec<(&str, fn(H) -> H)> = vec![
+        ("LambdaBody", |s| lam1("y", s)),
+        ("LeftOf(+)", |s| bin(Op::Add, s, id("e"))),
+        ("LeftOf(and)", |s| bin(Op::NAnd, s, id("e"))),
+        ("LeftOf(via)", |s| bin(Op::Via, s, id("e"))),
+        ("RightOf(^)", |s| bin(Op::Pow, id("e"), s)),
+        ("CondElse", |s| H::Cond(Box::new(id("e")), Box::new(id("g")), Box::new(s))),
+        ("Prefix", |s| H::Un(UOp::Neg, Box::new(s))),
+        ("IndexBase", |s| H::Index(Box::new(s), Box::new(id("e")))),
+        ("LambdaBodyLeftOf(and)", |s| lam1("y", bin(Op::NAnd, s, id("e")))),
+        ("LambdaBodyRightOf(or)", |s| lam1("y", bin(Op::NOr, id("e"), s))),
+    ];
+    let _ = e;
+    for sh in two_level() {
+        for (wname, w) in wrappers.iter() {
+            // a spread / output cannot be wrapped
+            if matches!(sh.tree, H::Output(_) | H::Spread(_)) {
+                continue;
+            }
+            v.push(Shape { ctx: format!("{}>{}", wname, sh.ctx), child: sh.child.clone(), tree: w(sh.tree.clone()) });
+        }
+    }
+    v
+}
+
 /// The context/child classes along the first path where two trees differ (for signatures).
 pub fn first_difference(a: &H, b: &H) -> (String, String) {
     fn kids(h: &H) -> Vec<(String, &H)> {
